@@ -252,6 +252,16 @@ def supplier_text_compiled(sc, out, case, f):
     return supplied
 
 
+def _file_names(sc, module):
+    """Names under which a file holding `module` may have been asked for (its own name and file aliases)."""
+    names = set([module])
+    for src in sc['sources']:
+        for k, v in src.items():
+            if isinstance(v, list) and (v[1] == module or module in v[3]):
+                names.add(k)
+    return names
+
+
 def searcher_protocol(sc, out, case, f):
     """C10-A."""
     res = out.result
@@ -276,6 +286,16 @@ def searcher_protocol(sc, out, case, f):
             for idx, mtime, rb in p:
                 if rb != rebuild:
                     raise Violation('rebuild-flag-not-passed', '%s: searcher %d got rebuild=%r' % (name, idx, rb), case)
+                # the time handed over is the time of a file this module came from: its source in the first pass, a
+                # borrower's copy in the second (any file served under one of the module's names is accepted)
+                own = set()
+                for kind, n in (('read', len(sc['sources'])), ('borrow', len(sc['borrowers']))):
+                    for i in range(n):
+                        for fname in _file_names(sc, name):
+                            own.add(orch.file_mtime(sc, kind, i, fname))
+                if mtime not in own:
+                    raise Violation('searcher-given-foreign-mtime', '%s: searcher %d was asked with mtime %r, the files of '
+                                    'this module carry %r' % (name, idx, mtime, sorted(own)), case)
             # stop at first fresh
             for pos, (idx, mtime, rb) in enumerate(p):
                 s = sc['searchers'][idx]
